@@ -696,6 +696,23 @@ func (p c05) Run(w *mon.Worker, idx int) mon.Result {
 				ok = ok && any
 			}
 		}
+		// a root that is a plain number / boolean / null is printed with the very same text when unwrapped: there the
+		// recorded deviation covers the dropped comments and nothing else (output that cannot be read back, other data,
+		// a second pass that differs are not part of it)
+		plainOnly := true
+		for _, d := range in {
+			if c05RootScalarFeature(d) {
+				r0 := d.Rows[0]
+				if r0.Style != "plain" || r0.Explicit || r0.Anchor != "" || !(r0.Tag == "!!null" || r0.Tag == "!!int" || r0.Tag == "!!bool" || r0.Tag == "!!float") {
+					plainOnly = false
+				}
+			}
+		}
+		if plainOnly {
+			for _, f := range rest {
+				ok = ok && strings.HasPrefix(f.Oracle, "O2")
+			}
+		}
 		if ok {
 			tags2 := map[string]bool{}
 			_, _, fails2, abort2 := c05Pass(st.Text, truth, in, lib, false, tags2, &res.Evals)
